@@ -205,6 +205,11 @@ func (ri *ReturnInfo) MergePotentiallyUnevaluated(temporaryReturnInfo *ReturnInf
 	ri.MaybeJumpedSwitch = ri.MaybeJumpedSwitch ||
 		temporaryReturnInfo.MaybeJumpedSwitch
 
+	// Propagate jump offsets, like for branches (see MergeBranches):
+	// jumps in the potentially unevaluated code (e.g. the else block of a guard statement)
+	// are potential from the perspective of subsequent code.
+	ri.addJumpOffsetsFrom(temporaryReturnInfo)
+
 	// NOTE: the definitive return state does not change
 }
 
